@@ -919,8 +919,8 @@ Definition f50_tree : pyval := PDict 0 [(PStr (sa "items"), PList 0 [PDict 0 [(P
 
 Theorem stale_item_rejected :
   (* reached by public operations: constructor keyword, then reset_value on the item *)
-  run_roundtrip (Some ([], false, [], f50_fs, [(sa "items", PList 0 [PDict 0 [(PStr (sa "need"), PInt 1)]])],
-                       [([PItem (sa "items") 0], CReset (sa "need"))]))
+  run_roundtrip (Some ([], false, [], f50_fs, [(sa "items", KV (PList 0 [PDict 0 [(PStr (sa "need"), PInt 1)]]))],
+                       [([PItem (sa "items") 0], XOp (CReset (sa "need")))]))
     = PTuple [o_str "ok"; o_cfg' f50_c; o_res (Ok f50_tree); o_oc (OErr (EValidation (sa "items[0].need")));
               o_cfg' (snd (build_cfg leaf ldefault l_callable {| w_next := 2; w_calls := 0 |} f50_fs)); PBool false]
   /\ validate_errs leaf lvalidate lflag (vrun []) (NSub false [] f50_fs) [] (VCfg f50_c) = [EValidation (sa "items[0].need")]
